@@ -148,6 +148,11 @@ func Render(h map[string]string) (map[string]string, []string) {
 		m.WriteString("  include s1;\n")
 		needS1 = true
 	}
+	if v("incm") == "" && v("belongs2") == "" && (v("incs1") != "" || v("incs2") != "") {
+		// what is wrong inside a submodule matters once the module includes it
+		m.WriteString("  include s1;\n")
+		needS1 = true
+	}
 	switch v("incm") {
 	case "s1":
 		m.WriteString("  include s1;\n")
@@ -438,11 +443,12 @@ func Render(h map[string]string) (map[string]string, []string) {
 		case "the-module":
 			inc = " include m;"
 		case "":
-			if v("belongs2") != "" {
+			if v("belongs2") != "" || v("incs2") != "" {
 				inc = " include s2;"
 			}
 		}
-		files["s1.yang"] = fmt.Sprintf("submodule s1 { belongs-to %s { prefix m; }%s container s1c { leaf x { type string; } } grouping s1g { leaf y { type string; } } }\n", bt, inc)
+		// (the submodule refers to a typedef, a grouping and an identity of the module it belongs to: looked up past its own includes)
+		files["s1.yang"] = fmt.Sprintf("submodule s1 { belongs-to %s { prefix m; }%s container s1c { leaf x { type string; } leaf xt { type t3; } leaf xi { type identityref { base i3; } } uses g3; } grouping s1g { leaf y { type string; } } }\n", bt, inc)
 		order = append(order, "s1.yang")
 	}
 	if needS2 {
